@@ -60,6 +60,8 @@ def next_record(sim):
            "seed": r.randrange(1 << 20)}
     if mode == "adversarial":
         rec["script"] = gen_script(r, fn, params)
+    elif r.random() < 0.2:
+        rec["again"] = True
     return rec
 
 
@@ -243,6 +245,26 @@ def call_generator(xgi, fn, params, seed_kw):
 
 
 def do_generate(sim, rec):
+    out = _generate_once(sim, rec, "")
+    if out is not None and rec.get("again") and not sim.world.findings:
+        # what a generator returns belongs to the caller: change it, then ask for the same network
+        # again -- the promise holds for the second result as for the first
+        with warnings.catch_warnings():
+            warnings.simplefilter("ignore")
+            try:
+                ns = list(out.nodes)
+                if ns:
+                    out.remove_node(ns[0])
+                (out.add_simplex if hasattr(out, "add_simplex") else out.add_edge)(
+                    (["__x__"], ["__y__"]) if isinstance(out, sim.xgi.DiHypergraph) else ["__x__", "__y__"])
+            except Exception:
+                pass
+        sim.world.stats["generate_again_after_mutating_result"] += 1
+        _generate_once(sim, rec, " [second call, after the first result was modified]")
+    return None
+
+
+def _generate_once(sim, rec, tag):
     w = sim.world
     xgi = sim.xgi
     fn = rec["fn"]
@@ -283,9 +305,9 @@ def do_generate(sim, rec):
     problems = [(c, d) for c, d in bad]
     problems += check_promise(w, fn, params, kw, snap, out, mode, script)
     for clause, detail in problems:
-        w.find({"C16"}, clause, fake, snap["kind"], f"{fn}({params!r}) [{mode}]: {detail}"[:900])
+        w.find({"C16"}, clause, fake, snap["kind"], f"{fn}({params!r}) [{mode}]{tag}: {detail}"[:900])
     w.states.add(E.hashlib.md5(E.structural_key(snap).encode()).hexdigest())
-    return None
+    return out
 
 
 def edge_sets(snap):
